@@ -93,9 +93,14 @@ def observe(real):
     import d42
     ev = {"stable": False, "eval_exc": "", "eq": False, "same_repr": False, "parsed": False,
           "expr": {"k": "expr", "t": "none", "calls": []}}
-    text = repr(real)
-    ev["text"] = text[:400]
-    ev["stable"] = (repr(real) == text) and (d42.represent(real) == text)
+    try:
+        text = repr(real)
+        ev["text"] = text[:400]
+        ev["stable"] = (repr(real) == text) and (d42.represent(real) == text)
+    except Exception as e:
+        ev["text"] = "<repr raised %s>" % type(e).__name__
+        ev["eval_exc"] = "repr raised " + type(e).__name__
+        return ev
     env = {"schema": d42.schema, "optional": d42.optional, "UUID": uuid.UUID, "datetime": datetime}
     try:
         rebuilt = eval(text, dict(env))
